@@ -24,7 +24,11 @@ Prev(o, a) == LET k == Req(o, a).idx IN IF k > 1 /\ k - 1 <= Len(o.order) THEN o
 (* The close reason was known when the head was written *)
 KnownClose(o, a) ==
     LET r == Req(o, a) IN
-    r.known /\ (r.wantclose \/ r.ver = "1.0" \/ r.idx >= o.cfg.kamax \/ r.bad)
+    r.known /\ (r.wantclose \/ r.ver = "1.0" \/ r.idx >= o.cfg.kamax \/ r.bad
+                 \* (an aborted message: the client ended its side in the middle of this request - and the server has
+                 \*  seen that: everything sent before the end has been taken by the application, nothing waits in
+                 \*  front of the reader)
+                 \/ (o.gone /\ r.begun /\ ~r.done /\ ~o.cerr /\ ~o.reset /\ App(o, a).recvd = r.body))
 
 Clauses(o, ev, o2) ==
     IF ~IsH1(o2) THEN <<>> ELSE
@@ -48,6 +52,21 @@ Clauses(o, ev, o2) ==
                     IF KnownClose(o, ev.app) /\ ~ev.close THEN <<F("close-not-announced", ev.app)>>
                     ELSE <<>>
               [] OTHER -> <<>>
+      [] ev.e = "t_close" ->
+            \* a message that went wrong after its head (a malformed body, or the client's EOF inside it) before its
+            \* application had started a response: the server closes - but only after a response of its own that
+            \* announces the close
+            LET Broken(a) ==
+                    LET r == Req(o, a) IN
+                    /\ r.known /\ r.kind = "http" /\ r.head /\ ~r.bad
+                    /\ \/ (Has(r.c, "badbody") /\ r.c.badbody /\ o.cerr)
+                       \/ (o.gone /\ ~r.done /\ r.begun /\ ~o.cerr)
+                    /\ ~o.reset /\ ~o.tfail /\ ~o.shut /\ ~o.paused /\ ~o.winddown
+                    /\ ~App(o, a).rstart /\ App(o, a).done = "" /\ Wire(o, a).heads = 0
+                    \* (... on a connection the exchange before it left open for another one)
+                    /\ (r.idx = 1 \/ Reusable(o, o.order[r.idx - 1]))
+            IN IF \E a \in DOMAIN o.reqs : Broken(a)
+               THEN <<F("close-not-announced", "message-went-wrong-before-any-response")>> ELSE <<>>
       [] ev.e = "quiescent" ->
             LET n == Len(o.order)
                 NotClosed(k) ==
@@ -68,6 +87,7 @@ Clauses(o, ev, o2) ==
                        ELSE IF UnreadLeft(o) THEN "request-messages-unread"
                        ELSE "after-response"
             IN (IF \E k \in 1..n : NotClosed(k) THEN <<F("not-closed", Ctx)>> ELSE <<>>)
+
             \o (IF \E k \in 1..(IF n > 0 THEN n - 1 ELSE 0) : Stalled(k) THEN <<F("pipeline-stalled", "")>> ELSE <<>>)
             \* ... or was started but is not being fed: the client has sent the whole request, the exchange before
             \* it is complete, the connection is healthy, and the application still waits for the rest of its body
